@@ -121,7 +121,11 @@ func (r *run) open(which string) (anyStore, error) {
 		}
 		return storekit.OpenSQLite(r.dir, which+".db", opts...)
 	case "sqlitemem":
-		return sqlite.New(":memory:")
+		var opts []sqlite.Option
+		if r.c.Batch > 0 {
+			opts = append(opts, sqlite.WithStreamBatchSize(r.c.Batch))
+		}
+		return sqlite.New(":memory:", opts...)
 	case "durable":
 		return r.srv.Open("stream-" + which)
 	}
